@@ -287,6 +287,11 @@ func c01Scenarios(thorough bool) []*explore.Scenario {
 			add("2conn:"+strings.Join(a, "+")+"|"+strings.Join(b, "+"), [][]string{a, b}, false, q2, explore.Bounds{P: 2})
 		}
 	}
+	for _, noUDP := range []bool{false, true} {
+		noUDP := noUDP
+		scs = append(scs, &explore.Scenario{Name: fmt.Sprintf("sequential:A-authenticates-and-ends-then-B-never-authenticates/disable-udp=%v", noUDP), Quick: explore.Bounds{P: 1}, Thorough: explore.Bounds{P: 2},
+			Body: func(e *vsched.Exec) { c01Sequential(e, noUDP, 2) }})
+	}
 	scs = append(scs, &explore.Scenario{Name: "1conn:AuthOK-then-8-repeated-auths", Quick: explore.Bounds{P: 0}, Thorough: explore.Bounds{P: 1}, Body: c01RepeatedAuth})
 	return scs
 }
@@ -342,6 +347,76 @@ func c01RepeatedAuth(e *vsched.Exec) {
 		e.Fail("(b) the authenticator was consulted %d times for one connection", n)
 	}
 	cl.close()
+	r.shutdown(true)
+}
+
+// c01Sequential: connection A authenticates, proxies and ENDS; only then a brand-new connection B,
+// which never sends an auth request, tries a 0x401 stream and a datagram. "Acceptance on one
+// connection never authorises another connection" also when the two are not alive at the same time
+// and whatever per-connection state the server recycles. With and without DisableUDP. (Added after
+// the independently seeded change C01-8: handler objects were pooled and, with DisableUDP, went
+// back to the pool still marked authenticated.)
+func c01Sequential(e *vsched.Exec, disableUDP bool, rounds int) {
+	r := newRig(e, rigOpts{DisableUDP: disableUDP})
+	if r.srv == nil {
+		return
+	}
+	for k := 0; k < rounds; k++ {
+		a := r.dial(fmt.Sprintf("A%d", k))
+		if resp, err := a.auth("good", 0); err != nil || resp.Status != protocol.StatusAuthOK {
+			e.Fail("valid credentials got %v %v", resp, err)
+			return
+		}
+		if str, err := a.rawTCP(fmt.Sprintf("t-A%d:80", k)); err == nil {
+			if ok, msg, err := protocol.ReadTCPResponse(str); err != nil || !ok {
+				e.Fail("authenticated connection A%d got (%v, %q, %v) for a TCP request", k, ok, msg, err)
+			}
+			str.CancelRead(0)
+			_ = str.Close()
+		}
+		a.close()
+		e.WaitIdle()
+		auths := 0
+		for _, ev := range r.Events {
+			if ev.Kind == "auth" {
+				auths++
+			}
+		}
+		b := r.dial(fmt.Sprintf("B%d", k))
+		str, err := b.rawTCP(fmt.Sprintf("t-B%d:80", k))
+		if err == nil {
+			if ok, msg, rerr := protocol.ReadTCPResponse(str); rerr == nil {
+				e.Fail("(a/c) connection B%d never authenticated (it was opened after authenticated connection A%d had ended) and got a proxy reply (%v, %q) on a 0x401 stream", k, k, ok, msg)
+			}
+			str.CancelRead(0)
+			_ = str.Close()
+		}
+		_ = b.dgram(7, fmt.Sprintf("u-B%d:53", k), []byte("d"))
+		e.WaitIdle()
+		b.close()
+		e.WaitIdle()
+		for _, ev := range r.Events {
+			tag := ev.A
+			if ev.Kind == "tcpreq" || ev.Kind == "udpreq" {
+				tag = ev.B
+			}
+			switch ev.Kind {
+			case "tcp", "udp", "checkudp", "udpwrite", "tcpreq", "udpreq":
+				if strings.HasPrefix(tag, fmt.Sprintf("t-B%d", k)) || strings.HasPrefix(tag, fmt.Sprintf("u-B%d", k)) {
+					e.Fail("(a/c) %v happened for connection B%d, which never sent an auth request; it was opened after authenticated connection A%d had ended", ev, k, k)
+				}
+			}
+		}
+		n := 0
+		for _, ev := range r.Events {
+			if ev.Kind == "auth" {
+				n++
+			}
+		}
+		if n != auths {
+			e.Fail("the authenticator was consulted for connection B%d, which sent no auth request", k)
+		}
+	}
 	r.shutdown(true)
 }
 
